@@ -258,14 +258,16 @@ Definition level_of (def : Z) (r : raw) : Z :=
 (* Dotted strings. *)
 
 (* strings.Split(s, ".") *)
-Fixpoint split_dots_aux (s : string) (cur : string) (* reversed *) : list string :=
+Fixpoint split_dots (s : string) : list string :=
   match s with
-  | EmptyString => [rev_string cur EmptyString]
+  | EmptyString => [EmptyString]
   | String a s' =>
-      if is_dot a then rev_string cur EmptyString :: split_dots_aux s' EmptyString
-      else split_dots_aux s' (String a cur)
+      if is_dot a then EmptyString :: split_dots s'
+      else match split_dots s' with
+           | x :: l => String a x :: l
+           | [] => [String a EmptyString]          (* not reached: split_dots is never empty *)
+           end
   end.
-Definition split_dots (s : string) : list string := split_dots_aux s EmptyString.
 
 (* strings.Join(p, ".") *)
 Fixpoint join_dots (p : list string) : string :=
@@ -340,7 +342,27 @@ Section Lookup.
     | q :: _ => conv (get c (q ++ [setting]))
     | [] => top c
     end.
+
+  (* the property as a relation: [v] is the value at the longest non-empty prefix of [p] that has
+     a value; the top-level reading when no prefix has one *)
+  Definition resolves (c : config) (p : path) (v : V) : Prop :=
+    (exists k, (1 <= k <= List.length p)%nat /\
+               valued c (firstn k p) = true /\
+               (forall j, (k < j <= List.length p)%nat -> valued c (firstn j p) = false) /\
+               v = conv (get c (firstn k p ++ [setting])))
+    \/ ((forall j, (1 <= j <= List.length p)%nat -> valued c (firstn j p) = false) /\ v = top c).
 End Lookup.
+
+(* Paths on which the dotted string and the component list say the same thing: no component
+   contains a '.', and the first component is not empty (the Go functions read "" as the top
+   level).  Every path vouch passes is of this kind. *)
+Fixpoint dot_free (s : string) : bool :=
+  match s with
+  | EmptyString => true
+  | String a s' => negb (is_dot a) && dot_free s'
+  end.
+Definition wf_path (p : path) : Prop :=
+  Forall (fun x => dot_free x = true) p /\ (match p with x :: _ => x <> EmptyString | [] => True end).
 
 (* ------------------------------------------------------------------------------------------- *)
 (* The five settings. *)
